@@ -151,6 +151,70 @@ theorem first_success_returned_no_call_after (rnd : Nat → Rat) (outs : List Ou
   have hat := loop_at rnd 0 outs i _ ho hi
   exact hat.1 _ (by simp [handle])
 
+/-! ### … whatever the result is (a falsy result is a result) -/
+
+/-- `guarded` never looks at the object a successful attempt returns: replacing the returned objects (a truthy one by
+    `HeadApiResponse(False)`, `{}`, `None` …) changes neither the calls nor the pauses, and the object handed back is the
+    replaced one of the same attempt -/
+theorem result_value_never_inspected (rnd : Nat → Rat) (f : Nat → Nat) (outs : List Outcome) :
+    (guarded rnd (outs.map (retag f))).trace = (guarded rnd outs).trace ∧
+    (guarded rnd (outs.map (retag f))).res = retagRes f (guarded rnd outs).res := by
+  unfold guarded
+  rw [loop_retag]
+  exact ⟨rfl, rfl⟩
+
+/-- the tag of a result identifies the attempt that produced it and the kind of object -/
+theorem result_tag_identifies (a b : Nat) (v w : Value) (h : resultTag a v = resultTag b w) : a = b ∧ v = w := by
+  have h1 := tagAttempt_resultTag a v
+  have h2 := tagValue_resultTag a v
+  rw [h, tagAttempt_resultTag] at h1
+  rw [h, tagValue_resultTag] at h2
+  exact ⟨h1.symm, h2.symm⟩
+
+/-- the first attempt that does not raise ends the call and ITS object is handed back — for every kind of result,
+    truthy or falsy (`HeadApiResponse(False)` of `exists` for a missing index, an empty body, `None`, `0`, `{}` …) -/
+theorem falsy_result_is_a_result (rnd : Nat → Rat) (outs : List Outcome) (i : Nat) (v : Value)
+    (ho : outs[i]? = some (succeeds i v)) (hi : i < (guarded rnd outs).calls) :
+    (guarded rnd outs).calls = i + 1 ∧
+    ∃ t, (guarded rnd outs).res = .returned t ∧ tagAttempt t = i ∧ tagValue t = v :=
+  ⟨(first_success_returned_no_call_after rnd outs i _ ho hi).1, _,
+    (first_success_returned_no_call_after rnd outs i _ ho hi).2, tagAttempt_resultTag i v, tagValue_resultTag i v⟩
+
+/-- from any state of the loop with budget left: transient faults (within the budget), then an attempt that does not
+    raise → exactly one call per fault plus one, and that attempt's object is returned; what follows is never invoked -/
+theorem transient_faults_then_result_from (rnd : Nat → Rat) (a : Nat) (pre rest : List Outcome) (t : Nat)
+    (hpre : ∀ o ∈ pre, Transient o) (hlen : a + pre.length ≤ 10) :
+    nCalls (loop rnd a (pre ++ .success t :: rest)).trace = pre.length + 1 ∧
+    (loop rnd a (pre ++ .success t :: rest)).res = .returned t := by
+  induction pre generalizing a with
+  | nil =>
+    have ha : a ≤ maxExecutionCount := by simp only [maxExecutionCount, List.length_nil] at hlen ⊢; omega
+    rw [List.nil_append, loop_done rnd a _ rest (.returned t) ha (by simp [handle])]
+    simp [nCalls]
+  | cons o pre ih =>
+    simp only [List.length_cons] at hlen
+    have ha : a ≤ maxExecutionCount := by simp only [maxExecutionCount]; omega
+    have hs : handle (a + 1) o = .sleepRetry :=
+      (handle_sleepRetry _ _).mpr ⟨(transient_iff o).mpr (hpre o (by simp)), by simp only [maxExecutionCount]; omega⟩
+    rw [List.cons_append, loop_retry rnd a o _ ha hs]
+    have := ih (a + 1) (fun o ho => hpre o (by simp [ho])) (by omega)
+    simp only [nCalls, List.length_cons]
+    exact ⟨by omega, this.2⟩
+
+/-- **k ≤ 10 transient faults followed by an attempt returning ANY object `v`**: k + 1 calls, k pauses, and the object
+    of attempt k is what the caller gets — in particular a falsy object does not make `guarded` call again -/
+theorem transient_faults_then_any_result (rnd : Nat → Rat) (pre rest : List Outcome) (v : Value)
+    (hpre : ∀ o ∈ pre, Transient o) (hlen : pre.length ≤ 10) :
+    (guarded rnd (pre ++ succeeds pre.length v :: rest)).calls = pre.length + 1 ∧
+    (guarded rnd (pre ++ succeeds pre.length v :: rest)).sleeps.length = pre.length ∧
+    (guarded rnd (pre ++ succeeds pre.length v :: rest)).res = .returned (resultTag pre.length v) := by
+  have h := transient_faults_then_result_from rnd 0 pre rest (resultTag pre.length v) hpre (by omega)
+  have hc : (guarded rnd (pre ++ succeeds pre.length v :: rest)).calls = pre.length + 1 := h.1
+  have hr : (guarded rnd (pre ++ succeeds pre.length v :: rest)).res = .returned (resultTag pre.length v) := h.2
+  refine ⟨hc, ?_, hr⟩
+  rw [pauses_count, hc, hr]
+  simp
+
 /-! ### non-retryable faults and exhaustion surface as Rally errors naming the cause -/
 
 theorem terminal_surfaces (o : Outcome) : Surfaces o (terminal o) := by
@@ -298,6 +362,97 @@ theorem flush_empties_buffer_unless_bulk_raised (rnd : Nat → Rat) (s : Store) 
       (flushStep rnd s refresh bulk refr).1.buffer = s.buffer ∧ (flushStep rnd s refresh bulk refr).1.acked = s.acked) :=
   flushStep_buffer rnd s refresh bulk refr
 
+/-! ### `EsMetricsStore.open()`: the store operations it issues -/
+
+/-- the index is created iff `open(create=True)` finds it missing (a falsy `exists` answer) — never on `open(create=False)`,
+    never when it is there -/
+theorem open_creates_index_iff_missing (create : Bool) (c : Cluster) :
+    StoreOp.createIndex ∈ openPlan create c ↔ (create = true ∧ c.index = false) := by
+  rcases c with ⟨(_ | _ | (_ | _)), (_ | _), (_ | _)⟩ <;> cases create <;> decide
+
+/-- the template is written iff there is none listed, or the listed one differs and overwriting is configured -/
+theorem open_puts_template_iff (create : Bool) (c : Cluster) :
+    StoreOp.putTemplate ∈ openPlan create c ↔
+      (create = true ∧ (c.template = none ∨ c.template = some none ∨ (c.template = some (some false) ∧ c.overwrite = true))) := by
+  rcases c with ⟨(_ | _ | (_ | _)), (_ | _), (_ | _)⟩ <;> cases create <;> decide
+
+/-- no store operation occurs twice in an `open`, and the refresh comes last, on the index that was found -/
+theorem open_plan_each_op_once (create : Bool) (c : Cluster) :
+    (openPlan create c).Nodup ∧ (openPlan create c).getLast? = some (.refresh (!create && c.index)) := by
+  rcases c with ⟨(_ | _ | (_ | _)), (_ | _), (_ | _)⟩ <;> cases create <;> decide
+
+/-- whatever faults hit the calls: the operations issued are an initial part of the plan, in order, and the whole plan when
+    nothing was raised; when something was raised it is the failure of the last operation issued -/
+theorem ops_follow_plan (rnd : Nat → Rat) (d : Nat) (ops : List StoreOp) (scripts : List (List Outcome)) :
+    (runOps rnd d ops scripts).1.map (·.1) <+: ops ∧
+    ((runOps rnd d ops scripts).2 = none → (runOps rnd d ops scripts).1.map (·.1) = ops) ∧
+    (∀ e, (runOps rnd d ops scripts).2 = some e → isReturned e = false ∧
+      ∃ p, (runOps rnd d ops scripts).1.getLast? = some p ∧ p.2.res = e) := by
+  induction ops generalizing d scripts with
+  | nil => simp [runOps]
+  | cons op ops ih =>
+    by_cases h : isReturned (callThenSucceed rnd d (scripts.headD [])).res = true
+    · have := ih (d + (callThenSucceed rnd d (scripts.headD [])).calls) scripts.tail
+      simp only [runOps, h, if_true, List.map_cons]
+      refine ⟨List.prefix_cons_inj _ |>.mpr this.1, fun hn => by rw [this.2.1 hn], ?_⟩
+      intro e he
+      obtain ⟨h1, p, hp, hpe⟩ := this.2.2 e he
+      refine ⟨h1, p, ?_, hpe⟩
+      rw [List.getLast?_cons, hp]
+      rfl
+    · simp only [runOps, h]
+      simp only [Bool.false_eq_true, if_false, List.map_cons, List.map_nil]
+      refine ⟨by simp, by simp, ?_⟩
+      intro e he
+      simp only [Option.some.injEq] at he
+      subst he
+      exact ⟨by simpa using h, _, rfl, rfl⟩
+
+theorem open_follows_plan (rnd : Nat → Rat) (create : Bool) (c : Cluster) (scripts : List (List Outcome)) :
+    (openStore rnd create c scripts).1.map (·.1) <+: openPlan create c ∧
+    ((openStore rnd create c scripts).2 = none → (openStore rnd create c scripts).1.map (·.1) = openPlan create c) :=
+  ⟨(ops_follow_plan rnd 0 _ scripts).1, (ops_follow_plan rnd 0 _ scripts).2.1⟩
+
+/-- one guarded store operation hit by transient faults within the budget: one call per fault plus one, then its answer -/
+theorem op_survives_transient_faults (rnd : Nat → Rat) (d : Nat) (s : List Outcome)
+    (hs : ∀ o ∈ s, Transient o) (hl : s.length ≤ 10) :
+    (callThenSucceed rnd d s).calls = s.length + 1 ∧ (callThenSucceed rnd d s).res = .returned s.length := by
+  have := transient_faults_then_result_from (fun k => rnd (d + k)) 0 s [] s.length hs (by omega)
+  exact this
+
+/-- `open` survives transient faults: when every operation is hit by at most ten transient faults, nothing is raised, every
+    operation of the plan is issued, and each operation is invoked once per fault plus once -/
+theorem open_survives_transient_faults (rnd : Nat → Rat) (d : Nat) (ops : List StoreOp) (scripts : List (List Outcome))
+    (h : ∀ s ∈ scripts, (∀ o ∈ s, Transient o) ∧ s.length ≤ 10) :
+    (runOps rnd d ops scripts).2 = none ∧ (runOps rnd d ops scripts).1.map (·.1) = ops ∧
+    ∀ p ∈ (runOps rnd d ops scripts).1, isReturned p.2.res = true ∧ p.2.sleeps.length + 1 = p.2.calls := by
+  induction ops generalizing d scripts with
+  | nil => simp [runOps]
+  | cons op ops ih =>
+    have hh : (∀ o ∈ scripts.headD [], Transient o) ∧ (scripts.headD []).length ≤ 10 := by
+      cases scripts with
+      | nil => simp
+      | cons s rest => exact h s (by simp)
+    have hr := op_survives_transient_faults rnd d (scripts.headD []) hh.1 hh.2
+    have hret : isReturned (callThenSucceed rnd d (scripts.headD [])).res = true := by rw [hr.2]; rfl
+    have := ih (d + (callThenSucceed rnd d (scripts.headD [])).calls) scripts.tail
+      (fun s hs => h s (List.mem_of_mem_tail hs))
+    simp only [runOps, hret, if_true, List.map_cons]
+    refine ⟨this.1, by rw [this.2.1], ?_⟩
+    intro p hp
+    rcases List.mem_cons.mp hp with rfl | hp
+    · refine ⟨hret, ?_⟩
+      have hc := pauses_count (fun k => rnd (d + k)) (scripts.headD [] ++ [.success (scripts.headD []).length])
+      have hres : (guarded (fun k => rnd (d + k)) (scripts.headD [] ++ [.success (scripts.headD []).length])).res
+          = .returned (scripts.headD []).length := hr.2
+      have hcalls : (guarded (fun k => rnd (d + k)) (scripts.headD [] ++ [.success (scripts.headD []).length])).calls
+          = (scripts.headD []).length + 1 := hr.1
+      rw [hres, hcalls] at hc
+      show (guarded _ _).sleeps.length + 1 = (guarded _ _).calls
+      rw [hc, hcalls]
+      simp
+    · exact this.2.2 p hp
+
 /-! ### one level below: the Rally client turns HTTP answers into what `guarded` classifies -/
 
 /-- `exists` / `template_exists` (HEAD): 2xx and 404 are answers, **every other status is raised** — so 429/502/503/504
@@ -390,6 +545,26 @@ example : Transient (.bulk [some 429, some 503]) := by
 example : FollowedByAnother (guarded z [.connTimeout, .success 1]) 0 := Or.inl (by decide +kernel)
 example : backoff z false 0 3 = [.call, .sleep (pause 0 0), .call, .sleep (pause 1 0), .call] := by decide +kernel
 example : pause 3 (1/2) = 17/2 := by decide +kernel
+-- a falsy result (HeadApiResponse(False) of `exists`) after two transient faults: three calls, and the later scripted results are never asked for
+example : guarded z [.connTimeout, .api 503, succeeds 2 .headFalse, succeeds 3 .headTrue] =
+    ⟨.returned (resultTag 2 .headFalse), [.call, .sleep 1, .call, .sleep 2, .call]⟩ := by decide +kernel
+example : Value.truthy .headFalse = false ∧ Value.truthy .emptyBody = false ∧ Value.truthy .pyNone = false ∧ Value.truthy .body = true := by decide
+example : tagAttempt (resultTag 2 .headFalse) = 2 ∧ tagValue (resultTag 2 .headFalse) = .headFalse := by decide
+example : ([Outcome.connError, .success 5].map (retag (fun t => resultTag t .emptyBody))) = [.connError, succeeds 5 .emptyBody] := by decide
+example : (∀ o ∈ [Outcome.connTimeout, .api 429], Transient o) := by
+  intro o ho
+  simp at ho
+  rcases ho with rfl | rfl
+  · trivial
+  · exact Or.inl rfl
+-- open(create=True) on a fresh metrics store: no template, no index -> template_exists, put_template, exists, create_index, refresh
+example : openPlan true ⟨none, false, false⟩ = [.templateExists, .putTemplate, .existsIndex false, .createIndex, .refresh false] := by decide
+example : openPlan true ⟨some (some false), false, true⟩ = [.templateExists, .getTemplate, .existsIndex false, .refresh false] := by decide
+example : openPlan false ⟨none, false, true⟩ = [.existsIndex true, .refresh true] := by decide
+example : ((openStore z true ⟨none, false, false⟩ [[.connTimeout], [], [.api 503, .api 429]]).1.map (fun p => (p.1, p.2.calls))) =
+    [(.templateExists, 2), (.putTemplate, 1), (.existsIndex false, 3), (.createIndex, 1), (.refresh false, 1)] := by decide +kernel
+example : (openStore z true ⟨none, false, false⟩ [[], [.authz]]).2 = some (.systemSetupError .authz) ∧
+    (openStore z true ⟨none, false, false⟩ [[], [.authz]]).1.map (·.1) = [.templateExists, .putTemplate] := by decide +kernel
 -- two documents, the bulk is acknowledged, the refresh fails for good (not found), one more document, close:
 -- the first two documents are not sent again
 example : (runStore z emptyStore [.put 2, .flush true [] [.api 404], .put 1, .flush true [.connTimeout] []]).1
